@@ -159,6 +159,22 @@ def validate_pure_trace(run, scratch, name, module, events, canary_field="got", 
     return wf, other
 
 
+def _report_panics(run, name, events, signature, limit=5):
+    """ordered logs keep the calls that panicked (the log would no longer be the program that ran); a panic of the
+    library is data and is reported here whether or not the specification constrains the call's answer"""
+    n = 0
+    for i, ev in enumerate(events):
+        msg = _panic_in(ev)
+        if msg is None:
+            continue
+        n += 1
+        if n <= limit:
+            sig = {"step": name, "panic": True, "call": ev.get("t")}
+            run.violation(name, {"signature": sig, "event": ev, "event_index": i, "library_panic": msg})
+    if n:
+        run.extra.setdefault("panicked_calls", {})[name] = n
+
+
 def _panic_in(v):
     """the message of a recorded panic anywhere inside an event (harness: {"panic": "<message>"})"""
     if isinstance(v, dict):
@@ -193,6 +209,7 @@ def validate_stateful_trace(run, scratch, name, module, events, n_prefix, corrup
     with one corrupted line must deadlock exactly there (binding canary).
     n_prefix: number of leading lines consumed by the initial state (load events)."""
     import re as _re
+    _report_panics(run, name, events, signature)
 
     def once(evs, tag):
         path = scratch.path(f"trace-{name}-{tag}.ndjson")
@@ -244,6 +261,7 @@ def validate_programs(run, scratch, name, module, events, n_prefix, corrupt, can
     exactly at that line."""
     import re as _re
     from concurrent.futures import ThreadPoolExecutor
+    _report_panics(run, name, events, None)
     loads, body = events[:n_prefix], events[n_prefix:]
     programs, cur = [], None
     for ev in body:
